@@ -3,7 +3,7 @@
    (shape pinned by gen/c16_arith.py, which refuses to generate when those functions change)
    and problog/engine_builtin.py  _builtin_is, _builtin_lt/_gt/_le/_ge/_val_eq/_val_neq.
    No proofs in this file. *)
-From Coq Require Import ZArith QArith Qabs String List Bool.
+From Coq Require Import ZArith QArith Qabs Ascii String List Bool.
 From PL.C16 Require Import PyNum GenArithTable.
 Import ListNotations.
 Open Scope Z_scope.
@@ -34,6 +34,24 @@ Definition cf (r : pres) : out :=
   | POpaque => OOpaque
   end.
 
+(* logic.py unquote(s) = s.strip("'"): all leading and trailing quote characters *)
+Definition is_quote (c : Ascii.ascii) : bool := Ascii.eqb c "'"%char.
+Fixpoint lstrip_q (s : string) : string :=
+  match s with
+  | String c r => if is_quote c then lstrip_q r else s
+  | EmptyString => s
+  end.
+Fixpoint rstrip_q (s : string) : string :=
+  match s with
+  | EmptyString => EmptyString
+  | String c r =>
+      match rstrip_q r with
+      | EmptyString => if is_quote c then EmptyString else String c EmptyString
+      | r' => String c r'
+      end
+  end.
+Definition unquote (s : string) : string := rstrip_q (lstrip_q s).
+
 Fixpoint ground (e : expr) : bool :=
   match e with
   | ENum _ => true
@@ -59,12 +77,12 @@ Fixpoint eval (e : expr) : out :=
   | ENum v => OVal v
   | EVar => OInst
   | EApp0 f =>
-      match lookup f 0 arith_table with
+      match lookup (unquote f) 0 arith_table with
       | Some (F0 r) => cf r
       | _ => OArithErr
       end
   | EApp1 f a =>
-      match lookup f 1 arith_table with
+      match lookup (unquote f) 1 arith_table with
       | Some (F1 g) =>
           match eval a with
           | OVal x => cf (g x)
@@ -73,7 +91,7 @@ Fixpoint eval (e : expr) : out :=
       | _ => OArithErr
       end
   | EApp2 f a b =>
-      match lookup f 2 arith_table with
+      match lookup (unquote f) 2 arith_table with
       | Some (F2 g) =>
           match eval a with
           | OVal x =>
